@@ -169,3 +169,17 @@ Fixpoint read_all (fuel : nat) (cfg : rcfg) (st : rstate) (s : stream) : list rr
     | _ => r :: read_all k cfg st' s'
     end
   end.
+
+(* as read_all, also reporting how many stream items (bytes and faults) each call consumed *)
+Fixpoint read_all_c (fuel : nat) (cfg : rcfg) (st : rstate) (s : stream) : list (rresult * nat) :=
+  match fuel with
+  | O => []
+  | S k =>
+    let '(r, st', s') := reader_read cfg st s in
+    let c := (stream_left s - stream_left s')%nat in
+    match r with
+    | RTransport e => if (e =? e_eof) && Nat.eqb (stream_left s') 0 then [(r, c)]
+                      else (r, c) :: read_all_c k cfg st' s'
+    | _ => (r, c) :: read_all_c k cfg st' s'
+    end
+  end.
